@@ -114,9 +114,10 @@ class Report:
             pr['instances'] += 1
             if inst.ok:
                 pr['discharged'] += 1
+        floor_errors = []
         for rid, pr in per_rule.items():
             if pr['instances'] < pr['floor']:
-                self.errors.append(
+                floor_errors.append(
                     f'rule {rid} examined {pr["instances"]} instances, floor is '
                     f'{pr["floor"]} (anchor vanished or inventory incomplete)')
 
@@ -124,6 +125,15 @@ class Report:
         violations = [i for i in failing if i.key() not in known_keys]
         findings = [i for i in failing if i.key() in known_keys]
         seen_known = {i.key() for i in findings}
+        # A floor guards against a *vacuous pass*.  When a completed rule instance already reports a
+        # violation and nothing else went wrong, a shrunken inventory is the expected side effect of
+        # the broken construct: report the violation (exit 1) and mention the floor as a note.  When the
+        # analysis itself failed (an AnalysisError was raised) the run stays undecided (exit 2).
+        floor_notes = []
+        if violations and not self.errors:
+            floor_notes = floor_errors
+        else:
+            self.errors = self.errors + floor_errors
 
         lines: list[str] = []
         code = 0
@@ -131,6 +141,8 @@ class Report:
             code = 2
             for e in self.errors:
                 lines.append(f'ANALYSIS-ERROR property={self.prop} {e}')
+        for e in floor_notes:
+            lines.append(f'NOTE property={self.prop} {e}')
         for i in findings:
             k = known_keys[i.key()]
             lines.append(f'KNOWN-FINDING: property={self.prop} {i.rule} {i.construct} '
